@@ -1,32 +1,36 @@
 import EupsModel.Lemmas.Uses
 import EupsModel.Lemmas.TopoTotal
-/-! Totality of `getDependentProducts` and `usesInfo` on databases without unsetup lines. -/
+import EupsModel.Lemmas.DepsGuard
+/-! Totality of `getDependentProducts` and `usesInfo` on every database (tree with the D32 repair; before it:
+on databases without unsetup lines). -/
 namespace EupsModel.Deps
 open EupsModel
 
-theorem listing_total (db : Db) (hns : NoUnsetup db) (req : Required) (top : Prod) :
+theorem listing_total (db : Db) (req : Required) (top : Prod) :
     ∃ out st, listing db db.fuel req top = some (out, st) := by
-  obtain ⟨o, st, h⟩ := depsOf_some db hns req db.fuel top 1 St.empty (fuel_enough db)
+  obtain ⟨o, st, h⟩ := depsOf_total db req top true 1
   exact ⟨o.filter (fun e => e.prod != top), st, by simp [listing, h]⟩
 
-/-- **The listing never fails**: with the driver's fuel, on a database without unsetup lines, every mode returns
+/-- **The listing never fails**: with the driver's fuel, on every database, every mode returns
 a listing, except that `checkCycles` may report a cycle. -/
-theorem getDependentProducts_total (db : Db) (hns : NoUnsetup db) (top : Prod) (topological cc : Bool) :
+theorem getDependentProducts_total (db : Db) (top : Prod) (topological cc : Bool) :
     (∃ out, getDependentProducts db db.fuel top topological cc = .ok out) ∨
       (cc = true ∧ getDependentProducts db db.fuel top topological cc = .cycle) := by
-  obtain ⟨out1, st1, h1⟩ := listing_total db hns [] top
+  obtain ⟨out1, st1, h1⟩ := listing_total db [] top
   unfold getDependentProducts
-  simp only [tableMissing_false hns top, Bool.false_eq_true, if_false, h1]
+  by_cases hm : db.tableMissing top = true
+  · simp only [hm, if_true]; exact Or.inl ⟨_, rfl⟩
+  simp only [hm, Bool.false_eq_true, if_false, h1]
   unfold finishListing
   split
   · exact Or.inl ⟨_, rfl⟩
-  · obtain ⟨out2, st2, h2⟩ := listing_total db hns (out1.map fun e => (e.prod.name, e.prod.ver)) top
+  · obtain ⟨out2, st2, h2⟩ := listing_total db (out1.map fun e => (e.prod.name, e.prod.ver)) top
     simp only [h2]
     rcases Topo.topologicalSort_total (graphOf st2) cc with ⟨ls, hls⟩ | ⟨hcc, hcy⟩
     · simp only [hls]; exact Or.inl ⟨_, rfl⟩
     · simp only [hcy]; exact Or.inr ⟨hcc, trivial⟩
 
-theorem usesInfo_go_total (db : Db) (hns : NoUnsetup db) : ∀ (ds : List Decl) (sb0 : SetupBy),
+theorem usesInfo_go_total (db : Db) : ∀ (ds : List Decl) (sb0 : SetupBy),
     ∃ sb, usesInfo.go db db.fuel ds sb0 = .ok sb := by
   intro ds
   induction ds with
@@ -34,12 +38,12 @@ theorem usesInfo_go_total (db : Db) (hns : NoUnsetup db) : ∀ (ds : List Decl) 
   | cons d ds ih =>
     intro sb0
     simp only [usesInfo.go]
-    rcases getDependentProducts_total db hns ⟨d.name, some d.ver, true⟩ true false with ⟨l, hl⟩ | ⟨hcc, _⟩
+    rcases getDependentProducts_total db ⟨d.name, some d.ver, true⟩ true false with ⟨l, hl⟩ | ⟨hcc, _⟩
     · simp only [hl]; exact ih _
     · exact absurd hcc (by simp)
 
-/-- **`uses()` never fails** on a database without unsetup lines -/
-theorem usesInfo_total (db : Db) (hns : NoUnsetup db) : ∃ sb, usesInfo db db.fuel = .ok sb :=
-  usesInfo_go_total db hns _ _
+/-- **`uses()` never fails**, on every database -/
+theorem usesInfo_total (db : Db) : ∃ sb, usesInfo db db.fuel = .ok sb :=
+  usesInfo_go_total db _ _
 
 end EupsModel.Deps
